@@ -4,10 +4,10 @@ from __future__ import annotations
 import ast
 import itertools
 
-from sa import source
-from sa.cfg import cfg_of, guards
+from sa import pat, source
+from sa.cfg import cfg_of, guards, holds, negate
 from sa.source import AnchorMissing, arg_of, bind_args, dotted, is_self_attr, last_attr, local_defs, params_of, short, u, walk_body
-from sa.sym import comparison, parse_expr, rat_equal, ratfun, UnknownAtom
+from sa.sym import comparison, NotRational, oriented, parse_expr, rat_equal, ratfun, UnknownAtom
 from sa.tables import decide, Unsupported
 
 _D = "esrally/driver/driver.py"
@@ -21,6 +21,18 @@ def _prop(mod, cls, name):
     return f
 
 
+def _param(f, i):
+    """name of the i-th positional parameter (self included) — a stable anchor; AnchorMissing when the signature is shorter."""
+    ps = params_of(f)
+    if i >= len(ps):
+        raise AnchorMissing(f"parameter #{i} of {getattr(f, 'name', '?')}({', '.join(ps)})")
+    return ps[i]
+
+
+def _is_none(n):
+    return isinstance(n, ast.Constant) and n.value is None  # (source.is_const(n, None) accepts any constant)
+
+
 def _single_return(f):
     rets = [n for n in walk_body(f) if isinstance(n, ast.Return)]
     return rets[0].value if len(rets) == 1 else None
@@ -29,7 +41,7 @@ def _single_return(f):
 def partition_call_rule(chk, rid, drv):
     """schedule_for partitions the task's parameter source with (task-local client index, the TASK's client count) — shared with C03 (slices must tile the corpus)."""
     sfn = drv.func("schedule_for")
-    ta = params_of(sfn)[0]
+    ta = _param(sfn, 0)
     pc_ = [n for n in walk_body(sfn) if isinstance(n, ast.Call) and last_attr(n.func) == "partition"]
     d = local_defs(sfn)
     ok = len(pc_) == 1 and len(pc_[0].args) == 2 and source.inline(pc_[0].args[0], d) == f"{ta}.client_index_in_task" and source.inline(pc_[0].args[1], d) == f"{ta}.task.clients"
@@ -57,8 +69,7 @@ def run(chk):
              "progress == (it + 1) / (W + I)", 6,
              "every iteration-based task: one request too many/few, the wrong number flagged warm-up, or progress not ending at exactly 1")
     init = _prop(drv, IB, "__init__")
-    ip = params_of(init)
-    W, I = ip[1], ip[2]
+    W, I = _param(init, 1), _param(init, 2)
     attrs = {}
     for n in walk_body(init):
         if isinstance(n, ast.Assign) and len(n.targets) == 1 and is_self_attr(n.targets[0]):
@@ -125,11 +136,19 @@ def run(chk):
     ok = pc is not None and rat_equal(expand(pc), parse_expr(f"(self.{it} + 1) / ({W} + {I})"))
     chk.ob("O5.1", "progress == (it + 1) / (W + I)", ok, _prop(drv, IB, "percent_completed"), f"`{u(pc) if pc is not None else None}`")
     inf = _single_return(_prop(drv, IB, "infinite"))
-    ok = inf is not None and u(expand(inf)) == f"{I} is None"
+    ok = inf is not None and pat.is_(expand(inf), f"{I} is None")
     chk.ob("O5.1", "infinite == iterations is None", ok, _prop(drv, IB, "infinite"), f"`{u(inf) if inf is not None else None}`")
     # zero total is rejected
     zr = [n for n in walk_body(init) if isinstance(n, ast.Raise)]
-    ok = bool(zr) and any(pol and comparison(t) is not None and comparison(t)[1] == "==" and source.is_const(comparison(t)[2], 0) for t, pol in guards(zr[0]))
+    # a guard fact `x == 0` (either orientation, either arm polarity) of the raise
+    ok = False
+    for f_ in (pat.fact_nodes(zr[0]) if zr else []):
+        c = oriented(f_, lambda n: not source.is_const(n, 0))
+        if c and c[1] == "==" and source.is_const(c[2], 0):
+            try:
+                ok = ok or rat_equal(expand(c[0]), parse_expr(f"{W} + {I}"))
+            except NotRational:
+                pass
     chk.ob("O5.1", "W + I == 0 rejected", ok, zr[0] if zr else init, "")
 
     # ---- O5.2 time-period guards --------------------------------------------------------------------------------------------------
@@ -137,8 +156,7 @@ def run(chk):
              "now only from the monotonic clock", 6,
              "a time-based task never stops / stops at once, flags the wrong side as warm-up, or returns to warm-up")
     tinit = _prop(drv, TB, "__init__")
-    tp = params_of(tinit)
-    Wt, T = tp[1], tp[2]
+    Wt, T = _param(tinit, 1), _param(tinit, 2)
     tattrs = {}
     for n in walk_body(tinit):
         if isinstance(n, ast.Assign) and len(n.targets) == 1 and is_self_attr(n.targets[0]):
@@ -224,11 +242,12 @@ def run(chk):
     inf = [l for l in loops if isinstance(l.test, ast.Constant)]
     if not fin or not inf:
         raise AnchorMissing("finite / infinite loop in ScheduleHandle.__call__")
-    ok = u(fin[0].test) == "not self.task_progress_control.completed"
+    ok = pat.is_(negate(fin[0].test), "self.task_progress_control.completed")
     chk.ob("O5.3", "finite loop guard == not completed", ok, fin[0], f"`{u(fin[0].test)}`")
     gs = guards(fin[0])
-    ok = any(u(t) == "self.task_progress_control.infinite" and not pol for t, pol in gs)
+    ok = holds(fin[0], "not self.task_progress_control.infinite")
     chk.ob("O5.3", "finite loop iff the progress control is finite", ok, fin[0], f"guards {[(u(t), p) for t, p in gs]}")
+    threaded = {}
     for name, l in (("finite", fin[0]), ("infinite", inf[0])):
         ys = [n for n in ast.walk(l) if isinstance(n, ast.Yield)]
         nx = [n for n in ast.walk(l) if isinstance(n, ast.Call) and u(n.func) == "self.task_progress_control.next"]
@@ -243,7 +262,9 @@ def run(chk):
         # every normal path from the yield to the loop head passes next()
         ok = ok and lh.id not in gg.reachable([gg.nodes[t] for t, lab in gg.succ[y.id] if gg.normal_edge(y.id, t, lab)], avoid=[n_], edge_ok=gg.normal_edge)
         chk.ob("O5.3", f"{name}: next() exactly once after the yield", ok, nx[0], "")
-        tgt = sn[0].targets[0].id if isinstance(sn[0].targets[0], ast.Name) else None
+        tgt = sn[0].targets[0].id if len(sn[0].targets) == 1 and isinstance(sn[0].targets[0], ast.Name) else None
+        if tgt is not None:
+            threaded.setdefault(tgt, []).append(l)
         ok = tgt is not None and sn[0].value.args and u(sn[0].value.args[0]) == tgt and gg.dominated_by_nodes(y, [s_]) and not gg.path_exists(y, s_, avoid=[lh])
         chk.ob("O5.3", f"{name}: scheduled time threaded (next = sched.next(previous)) before the yield", ok, sn[0], short(sn[0], 60))
         tup = ys[0].value
@@ -251,8 +272,17 @@ def run(chk):
         if name == "finite":
             ok = ok and u(tup.elts[2]) == "self.task_progress_control.percent_completed"
         chk.ob("O5.3", f"{name}: yielded tuple (scheduled, sample type, progress, runner, params)", ok, ys[0], short(tup, 120))
-    inits = [n for n in walk_body(gen) if isinstance(n, ast.Assign) and isinstance(n.targets[0], ast.Name) and source.is_const(n.value, 0)]
-    chk.ob("O5.3", "first scheduled time derives from 0", bool(inits) and not guards(inits[0]), inits[0] if inits else gen, "")
+    # role: the variable threaded through sched.next() in a loop is written outside the threading loops exactly once, with 0, on every path to the loop (and one loop does not feed the other)
+    ok = bool(threaded)
+    inits = []
+    for tgt, ls in threaded.items():
+        outside = [n for n in walk_body(gen) if isinstance(n, (ast.Assign, ast.AugAssign, ast.AnnAssign, ast.NamedExpr)) and not any(l is a for l in ls for a in source.ancestors(n))
+                   and any(isinstance(x, ast.Name) and x.id == tgt for t in (n.targets if isinstance(n, ast.Assign) else [n.target]) for x in ast.walk(t))]
+        zero = [n for n in outside if isinstance(n, ast.Assign) and len(n.targets) == 1 and isinstance(n.targets[0], ast.Name) and source.is_const(n.value, 0)]
+        inits += zero
+        ok = ok and len(zero) == 1 and len(outside) == 1 and all(gg.dominated_by_nodes(gg.node_of(l), [gg.node_of(zero[0])]) for l in ls) \
+            and not any(a is not b and gg.path_exists(gg.node_of(a), gg.node_of(b)) for a in ls for b in ls)
+    chk.ob("O5.3", "first scheduled time derives from 0", ok, inits[0] if inits else gen, f"threaded through sched.next(): {sorted(threaded)}")
 
     # ---- O5.4 pacing ----------------------------------------------------------------------------------------------------------------------------
     chk.rule("O5.4", "pacing: deterministic next == current + 1/theta; Poisson current + expovariate(theta); unthrottled 0; unit-aware theta == T / clients / weight "
@@ -262,7 +292,7 @@ def run(chk):
     DS = sch.cls("DeterministicScheduler")
     di = _prop(sch, DS, "__init__")
     dn = _prop(sch, DS, "next")
-    thp = params_of(di)[2]
+    thp = _param(di, 2)
     dattrs = {n.targets[0].attr: n.value for n in walk_body(di) if isinstance(n, ast.Assign) and is_self_attr(n.targets[0])}
     r = _single_return(dn)
 
@@ -275,7 +305,7 @@ def run(chk):
 
         return X().visit(source.clone(e))
 
-    cur = params_of(dn)[1]
+    cur = _param(dn, 1)
     ok = r is not None and rat_equal(dexp(r), parse_expr(f"{cur} + 1 / {thp}"))
     chk.ob("O5.4", "deterministic: next == current + 1/theta", ok, dn, f"`{u(dexp(r)) if r is not None else None}`")
     PS = sch.cls("PoissonScheduler")
@@ -285,22 +315,29 @@ def run(chk):
     ok = False
     if isinstance(r, ast.BinOp) and isinstance(r.op, ast.Add):
         sides = [r.left, r.right]
-        cur = params_of(pn)[1]
+        cur = _param(pn, 1)
         ex = [s for s in sides if isinstance(s, ast.Call) and dotted(s.func) == "random.expovariate"]
-        ok = len(ex) == 1 and any(u(s) == cur for s in sides) and is_self_attr(ex[0].args[0]) and u(pattrs.get(ex[0].args[0].attr)) == params_of(pi)[2]
+        ok = len(ex) == 1 and any(u(s) == cur for s in sides) and len(ex[0].args) == 1 and is_self_attr(ex[0].args[0]) and u(pattrs.get(ex[0].args[0].attr)) == _param(pi, 2)
     chk.ob("O5.4", "poisson: next == current + expovariate(theta)", ok, pn, f"`{u(r) if r is not None else None}`")
     UT = sch.cls("Unthrottled")
     r = _single_return(_prop(sch, UT, "next"))
     chk.ob("O5.4", "unthrottled: next == 0", r is not None and source.is_const(r, 0), _prop(sch, UT, "next"), "")
     UA = sch.cls("UnitAwareScheduler")
     ar = _prop(sch, UA, "after_request")
-    adefs = local_defs(ar)
-    tt = [n for n in walk_body(ar) if isinstance(n, ast.Assign) and isinstance(n.targets[0], ast.Name) and isinstance(source.parent(n), ast.If) is not None
-          and any(isinstance(c, ast.Call) and is_self_attr(c.func, "scheduler_class") and any(isinstance(a, ast.Name) and a.id == n.targets[0].id for a in c.args) for c in ast.walk(ar))]
+    adefs = {k: v for k, v in local_defs(ar).items() if k not in params_of(ar)}  # a re-assigned parameter is not a single-definition local
+    # role: theta is what the delegate's constructor receives as its target-throughput parameter in `self.scheduler_class(task, theta)`; `tt` is the statement computing it
+    # (the defining assignment when theta is a local, else the statement holding the constructor call)
+    scc = [c for c in walk_body(ar) if isinstance(c, ast.Call) and is_self_attr(c.func, "scheduler_class")]
+    theta = bind_args(scc[0], di).get(thp) if len(scc) == 1 else None
+    tt = []
+    if isinstance(theta, ast.Name) and theta.id in adefs:
+        tt = [n for n in walk_body(ar) if isinstance(n, ast.Assign) and n.value is adefs[theta.id]]
+    elif theta is not None and not isinstance(theta, ast.Name):
+        tt = [source.enclosing_stmt(scc[0])]
     ok = False
     detail = "target throughput assignment not found"
     if tt:
-        e = tt[0].value
+        e = tt[0].value if isinstance(theta, ast.Name) else theta  # the direct definition only: deeper locals could be stale reads of the weight
         ok = rat_equal(e, parse_expr("self.task.target_throughput.value / self.task.clients / self.current_weight"))
         detail = f"theta = {u(e)}"
         # composition with the deterministic wait
@@ -309,7 +346,7 @@ def run(chk):
         ok = ok and comp == want
     chk.ob("O5.4", "unit-aware: theta == T / clients / weight (gap == weight*C/T)", ok, tt[0] if tt else ar, detail)
     cw = [n for n in walk_body(ar) if isinstance(n, ast.Assign) and any(is_self_attr(t, "current_weight") for t in n.targets)]
-    wparam = params_of(ar)[2]
+    wparam = _param(ar, 2)
     ok = len(cw) == 1 and u(cw[0].value) == wparam and bool(tt) and cfg_of(ar).dominated_by_nodes(cfg_of(ar).node_of(tt[0]), [cfg_of(ar).node_of(cw[0])])
     chk.ob("O5.4", "current weight updated from the reported weight before theta is computed", ok, cw[0] if cw else ar, "")
     w1 = [n for n in walk_body(ar) if isinstance(n, ast.Assign) and isinstance(n.targets[0], ast.Name) and n.targets[0].id == wparam and source.is_const(n.value, 1)]
@@ -317,21 +354,36 @@ def run(chk):
     detail = "no `weight = 1` normalisation"
     if w1:
         gs = guards(w1[0])
-        texts = [u(source.inline_node(t, adefs)) for t, pol in gs if pol]
-        has_first = any("first_request" in x for x in texts[1:])
-        ok = any("'ops/s'" in x for x in texts) and not has_first and len(gs) == 3
-        detail = f"weight = 1 under {[(u(t), p) for t, p in gs]}"
+        # guard facts of the normalisation beyond those of the update branch itself (the branch that stores current_weight): exactly {reported unit != target unit, target unit == 'ops/s'},
+        # whatever the nesting / arm polarity / orientation / local names; any further condition (e.g. first_request) means it is not applied on every call
+        outer = {u(f_) for c_ in cw for f_ in pat.fact_nodes(c_)}
+        inner = [source.inline_node(f_, adefs) for f_ in pat.fact_nodes(w1[0]) if u(f_) not in outer]
+        UNIT = "self.task.target_throughput.unit"
+        uparam = params_of(ar)[3] if len(params_of(ar)) > 3 else None
+        is_opss = [f_ for f_ in inner if pat.is_(f_, f"{UNIT} == 'ops/s'")]
+        mism = [f_ for f_ in inner if f_ not in is_opss and (c_ := oriented(f_, lambda n: u(n) == UNIT)) is not None and c_[1] == "!=" and uparam is not None
+                and any(isinstance(x, ast.Name) and x.id == uparam for x in ast.walk(c_[2])) and "/s" in u(c_[2])]
+        ok = len(cw) == 1 and len(is_opss) == 1 and len(mism) == 1 and len(inner) == 2
+        detail = f"weight = 1 under {[(u(t), p) for t, p in gs]}; beyond the update branch: {[u(f_) for f_ in inner]}"
     chk.ob("O5.4", "ops/s target with another unit: weight normalised to 1 on every call (not only the first)", ok, w1[0] if w1 else ar, detail)
     # scheduler re-created with the new theta on every path through the update branch
     mk = [n for n in walk_body(ar) if isinstance(n, ast.Assign) and any(is_self_attr(t, "scheduler") for t in n.targets)]
-    ok = len(mk) == 1 and bool(tt) and len(guards(mk[0])) == 1
+    # rebuilt exactly when the weight is stored and theta recomputed (same guard facts), i.e. under the update condition weight > 0 and (first request or weight changed), from that theta
+    upd = [u(f_) for f_ in pat.fact_nodes(mk[0])] if mk else []
+    ok = len(mk) == 1 and bool(tt) and len(cw) == 1 and sorted(upd) == sorted(u(f_) for f_ in pat.fact_nodes(cw[0])) == sorted(u(f_) for f_ in pat.fact_nodes(tt[0])) \
+        and len(upd) == 2 and any(pat.is_(f_, f"{wparam} > 0") for f_ in pat.fact_nodes(mk[0])) \
+        and any(pat.is_(f_, f"self.first_request or self.current_weight != {wparam}") for f_ in pat.fact_nodes(mk[0])) \
+        and isinstance(mk[0].value, ast.Call) and mk[0].value is scc[0]
     chk.ob("O5.4", "delegate scheduler rebuilt with the new theta", ok, mk[0] if mk else ar, "")
     sf = sch.func("scheduler_for")
-    ok = any(isinstance(n, ast.Return) and isinstance(n.value, ast.Call) and last_attr(n.value.func) == "Unthrottled" and any(pol and "run_unthrottled" in u(t) for t, pol in guards(n)) for n in walk_body(sf))
+    sfp = _param(sf, 0)
+    ok = any(isinstance(n, ast.Return) and isinstance(n.value, ast.Call) and last_attr(n.value.func) == "Unthrottled" and any(pat.is_(f_, f"run_unthrottled({sfp})") for f_ in pat.fact_nodes(n)) for n in walk_body(sf))
     chk.ob("O5.4", "unthrottled scheduler iff run_unthrottled(task)", ok, sf, "")
     ru = sch.func("run_unthrottled")
     r = _single_return(ru)
-    ok = r is not None and isinstance(r, ast.BoolOp) and isinstance(r.op, ast.And) and any(u(v) == "task.target_throughput is None" for v in r.values)
+    from sa.cfg import conjuncts
+
+    ok = r is not None and isinstance(r, ast.BoolOp) and isinstance(r.op, ast.And) and any(pat.is_(v, f"{_param(ru, 0)}.target_throughput is None") for v in conjuncts(r))
     chk.ob("O5.4", "unthrottled requires target throughput is None", ok, ru, "")
     # ramp-up
     rw = _prop(drv, SH, "ramp_up_wait_time")
@@ -348,7 +400,7 @@ def run(chk):
     ex = _prop(drv, drv.cls("AsyncExecutor"), "__call__")
     ge = cfg_of(ex)
     edefs = local_defs(ex)
-    sleeps = [n for n in walk_body(ex) if isinstance(n, ast.Await) and isinstance(n.value, ast.Call) and dotted(n.value.func) == "asyncio.sleep"
+    sleeps = [n for n in walk_body(ex) if isinstance(n, ast.Await) and isinstance(n.value, ast.Call) and dotted(n.value.func) == "asyncio.sleep" and n.value.args
               and "ramp_up_wait_time" in source.inline(n.value.args[0], edefs)]
     starts = [n for n in walk_body(ex) if isinstance(n, ast.Call) and u(n.func) == "self.schedule_handle.start"]
     loops_ = [n for n in walk_body(ex) if isinstance(n, ast.AsyncFor)]
@@ -359,8 +411,8 @@ def run(chk):
     chk.ob("O5.4", "progress timer started before the ramp-up wait", ok, starts[0], "" if ok else "the warm-up / time period would start after the ramp-up delay: client i runs ramp*i/total too long")
     ok = not ge.path_exists(lp, sl) and len(starts) == 1
     chk.ob("O5.4", "ramp-up wait before the main loop", ok, sleeps[0], "")
-    gs = guards(sleeps[0])
-    ok = len(gs) == 1 and gs[0][1] and "ramp_up_wait_time" in source.inline(gs[0][0], edefs)
+    gs = [source.inline_node(f_, edefs) for f_ in pat.fact_nodes(sleeps[0])]
+    ok = len(gs) == 1 and pat.is_(gs[0], "self.schedule_handle.ramp_up_wait_time", "self.schedule_handle.ramp_up_wait_time > 0", "self.schedule_handle.ramp_up_wait_time != 0")
     chk.ob("O5.4", "ramp-up wait guarded only by a non-zero wait time", ok, sleeps[0], "")
 
     # ---- O5.6 target throughput parsing ------------------------------------------------------------------------------------------------------------------
@@ -417,7 +469,7 @@ def run(chk):
                 return val[role_of(n.args[0])] == "num"  # the local predicate `numeric`
             if isinstance(n, ast.Call) and dotted(n.func) == "isinstance" and len(n.args) == 2 and role_of(n.args[0]) and u(n.args[1]) == "str":
                 return val[role_of(n.args[0])] in ("str-ok", "str-bad")
-            if isinstance(n, ast.Compare) and len(n.ops) == 1 and isinstance(n.ops[0], (ast.Is, ast.IsNot)) and source.is_const(n.comparators[0], None) and role_of(n.left):
+            if isinstance(n, ast.Compare) and len(n.ops) == 1 and isinstance(n.ops[0], (ast.Is, ast.IsNot)) and _is_none(n.comparators[0]) and role_of(n.left):
                 isnone = val[role_of(n.left)] is None
                 return isnone if isinstance(n.ops[0], ast.Is) else not isnone
             r = role_of(n)
@@ -447,9 +499,9 @@ def run(chk):
             ok = a_ == [want[1], want[2]]
             got = f"{out.text()} with (value, unit) = {a_}"
         chk.ob("O5.6", f"{label}", ok, tt, f"{got}; expected {want}", key=f"esrally/track/track.py:Task.target_throughput:{label}")
-    pat = [n for n in TKc.body if isinstance(n, ast.Assign) and u(n.targets[0]) == "THROUGHPUT_PATTERN"]
-    ok = bool(pat) and isinstance(pat[0].value, ast.Call) and isinstance(pat[0].value.args[0], ast.Constant) and "(?P<value>" in pat[0].value.args[0].value and "(?P<unit>" in pat[0].value.args[0].value and "/s" in pat[0].value.args[0].value
-    chk.ob("O5.6", "string form parsed with named groups value / unit (unit ends in /s)", ok, pat[0] if pat else TKc, "")
+    tpat = [n for n in TKc.body if isinstance(n, ast.Assign) and u(n.targets[0]) == "THROUGHPUT_PATTERN"]
+    ok = bool(tpat) and isinstance(tpat[0].value, ast.Call) and bool(tpat[0].value.args) and isinstance(tpat[0].value.args[0], ast.Constant) and "(?P<value>" in tpat[0].value.args[0].value and "(?P<unit>" in tpat[0].value.args[0].value and "/s" in tpat[0].value.args[0].value
+    chk.ob("O5.6", "string form parsed with named groups value / unit (unit ends in /s)", ok, tpat[0] if tpat else TKc, "")
     reads = {source.inline(v_, {}) for v_ in tdefs.values()}
     ok = IVX in reads and TVX in reads
     chk.ob("O5.6", "read from the keys target-throughput / target-interval", ok, tt, "")
@@ -459,19 +511,22 @@ def run(chk):
              "else finite parameter source => time-based; the chosen control receives (warm-up, measurement) from the task fields of the same kind", 8,
              "explicit iterations ignored (task never stops after W+I requests) or explicit time periods ignored")
     rq = drv.func("requires_time_period_schedule")
-    tpn, rn, pn_ = params_of(rq)
+    tpn, rn, pn_ = _param(rq, 0), _param(rq, 1), _param(rq, 2)
+
+    FIELD = {(tpn, "warmup_time_period"): "wt", (tpn, "time_period"): "t", (tpn, "warmup_iterations"): "wi", (tpn, "iterations"): "i", (rn, "completed"): "rc"}
 
     def atom(n, env):
-        t = u(n)
-        table = {
-            f"{tpn}.warmup_time_period is not None": env["wt"], f"{tpn}.time_period is not None": env["t"],
-            f"{tpn}.warmup_iterations is not None": env["wi"], f"{tpn}.iterations is not None": env["i"],
-            f"{rn}.completed is not None": env["rc"], f"{pn_}.infinite": env["inf"],
-            f"{tpn}.warmup_time_period is None": not env["wt"], f"{tpn}.time_period is None": not env["t"],
-            f"{tpn}.warmup_iterations is None": not env["wi"], f"{tpn}.iterations is None": not env["i"],
-            f"{rn}.completed is None": not env["rc"],
-        }
-        return table.get(t)
+        """role atoms: `<param>.<field> is [not] None` in either orientation; `<params>.infinite`."""
+        if isinstance(n, ast.Compare) and len(n.ops) == 1 and isinstance(n.ops[0], (ast.Is, ast.IsNot)):
+            l, r = n.left, n.comparators[0]
+            x = r if _is_none(l) else l if _is_none(r) else None
+            if isinstance(x, ast.Attribute) and isinstance(x.value, ast.Name) and (x.value.id, x.attr) in FIELD:
+                given = env[FIELD[(x.value.id, x.attr)]]
+                return given if isinstance(n.ops[0], ast.IsNot) else not given
+            return None
+        if isinstance(n, ast.Attribute) and isinstance(n.value, ast.Name) and n.value.id == pn_ and n.attr == "infinite":
+            return env["inf"]
+        return None
 
     n_rows = 0
     try:
@@ -510,15 +565,23 @@ def run(chk):
     if not ibc or not tbc:
         raise AnchorMissing("IterationBased(...) / TimePeriodBased(...) construction in schedule_for")
 
+    ta = _param(sfn, 0)
+
+    def is_task(x, depth=0):
+        """role: the task of the allocation — `<allocation parameter>.task` itself or a local all of whose definitions are that."""
+        if isinstance(x, ast.Attribute):
+            return x.attr == "task" and isinstance(x.value, ast.Name) and x.value.id == ta
+        return isinstance(x, ast.Name) and x.id != ta and depth < 4 and bool(sdefs.get(x.id)) and all(is_task(v, depth + 1) for v in sdefs[x.id])
+
     def sources(e):
-        """attribute names of `task` an expression can carry (through the local's definitions)."""
+        """attribute names of the task an expression can carry (through the local's definitions)."""
         out = set()
         todo = [e]
         seen = set()
         while todo:
             x = todo.pop()
             for n in ast.walk(x):
-                if isinstance(n, ast.Attribute) and isinstance(n.value, ast.Name) and n.value.id == "task":
+                if isinstance(n, ast.Attribute) and is_task(n.value):
                     out.add(n.attr)
                 if isinstance(n, ast.Name) and n.id in sdefs and n.id not in seen:
                     seen.add(n.id)
@@ -531,13 +594,12 @@ def run(chk):
     b = bind_args(tbc[0], tinit)
     chk.ob("O5.5", "TimePeriodBased(warm-up := task.warmup_time_period)", sources(b.get(Wt)) == {"warmup_time_period"} if b.get(Wt) is not None else False, tbc[0], "")
     chk.ob("O5.5", "TimePeriodBased(period := task.time_period)", sources(b.get(T)) == {"time_period"} if b.get(T) is not None else False, tbc[0], "")
-    gi = guards(ibc[0])
-    gt = guards(tbc[0])
-    ok = any("requires_time_period_schedule" in u(t) and pol for t, pol in gt) and any("requires_time_period_schedule" in u(t) and not pol for t, pol in gi)
+    ok = any(pat.is_(f_, "requires_time_period_schedule(E_a, E_b, E_c)") for f_ in pat.fact_nodes(tbc[0])) and any(pat.is_(f_, "not requires_time_period_schedule(E_a, E_b, E_c)") for f_ in pat.fact_nodes(ibc[0]))
     chk.ob("O5.5", "time-based control iff requires_time_period_schedule", ok, tbc[0], "")
     # the chosen control reaches the schedule handle
     shc = [n for n in walk_body(sfn) if isinstance(n, ast.Call) and last_attr(n.func) == "ScheduleHandle"]
-    ok = bool(shc) and len(shc[0].args) >= 3 and isinstance(shc[0].args[2], ast.Name) and shc[0].args[2].id in sdefs and all(isinstance(v, ast.Call) and last_attr(v.func) in ("IterationBased", "TimePeriodBased") for v in sdefs[shc[0].args[2].id])
+    lc = bind_args(shc[0], _prop(drv, SH, "__init__")).get("task_progress_control") if shc else None
+    ok = isinstance(lc, ast.Name) and lc.id in sdefs and all(isinstance(v, ast.Call) and last_attr(v.func) in ("IterationBased", "TimePeriodBased") for v in sdefs[lc.id])
     chk.ob("O5.5", "the chosen loop control is handed to the schedule handle", ok, shc[0] if shc else sfn, "")
     # params partitioned with the task-local client index
     partition_call_rule(chk, "O5.5", drv)
